@@ -633,7 +633,7 @@ theorem bagD_atoms (ms : List (Nat × Expr α)) (E : Expr α) (h : bagD Expr.nod
 /-- the chain root over `L` is the value of a tree whose leaves are exactly `L`, in order -/
 theorem root_tree (merge : α → α → α) (L : List α) (root : α)
     (hroot : bagD merge (specD merge L) = some root) :
-    ∃ T : Expr α, T.eval merge = root ∧ Slice L T 0 := by
+    ∃ T : Expr α, T.eval merge = root ∧ Slice L T 0 ∧ T.atoms = L := by
   have h1 := foldl_pushD_hom merge (L.map Expr.atom) []
   simp only [List.map_nil, List.map_map] at h1
   have hid : (Expr.eval merge ∘ Expr.atom) = (id : α → α) := by funext x; rfl
@@ -650,6 +650,7 @@ theorem root_tree (merge : α → α → α) (L : List α) (root : α)
     have hat : T.atoms = L := by
       rw [bagD_atoms _ T hT]
       exact specD_atoms L
+    refine ⟨?_, hat⟩
     intro i hi
     rw [hat] at hi ⊢
     exact ⟨by simp, by omega⟩
